@@ -307,7 +307,50 @@ func (n *quotedString) Text() string {
 
 // String returns the SQL/JSON path-encoded quoted string.
 func (n *quotedString) String() string {
-	return strconv.Quote(n.str)
+	return quote(n.str)
+}
+
+// quote returns str as a double-quoted SQL/JSON path string literal. It
+// escapes like [strconv.Quote], except that it uses only escape sequences
+// the path lexer decodes: \x07 rather than \a and \u{...} rather than
+// \U........ for non-printable code points above U+FFFF.
+func quote(str string) string {
+	var buf strings.Builder
+	buf.Grow(len(str) + len(`""`))
+	buf.WriteByte('"')
+	for _, r := range str {
+		switch r {
+		case '"':
+			buf.WriteString(`\"`)
+		case '\\':
+			buf.WriteString(`\\`)
+		case '\b':
+			buf.WriteString(`\b`)
+		case '\f':
+			buf.WriteString(`\f`)
+		case '\n':
+			buf.WriteString(`\n`)
+		case '\r':
+			buf.WriteString(`\r`)
+		case '\t':
+			buf.WriteString(`\t`)
+		case '\v':
+			buf.WriteString(`\v`)
+		default:
+			switch {
+			case r < ' ' || r == 0x7f:
+				fmt.Fprintf(&buf, `\x%02x`, r)
+			case strconv.IsPrint(r):
+				buf.WriteRune(r)
+			case r > 0xffff:
+				fmt.Fprintf(&buf, `\u{%x}`, r)
+			default:
+				fmt.Fprintf(&buf, `\u%04x`, r)
+			}
+		}
+	}
+	buf.WriteByte('"')
+	return buf.String()
 }
 
 // writeTo writes n.String to buf.
@@ -874,7 +917,7 @@ func (n *RegexNode) writeTo(buf *strings.Builder, _, withParens bool) {
 	}
 
 	n.operand.writeTo(buf, false, n.operand.priority() <= n.priority())
-	fmt.Fprintf(buf, " like_regex %q%v", n.pattern, n.flags)
+	fmt.Fprintf(buf, " like_regex %v%v", quote(n.pattern), n.flags)
 
 	if withParens {
 		buf.WriteRune(')')
